@@ -27,7 +27,7 @@ m = {
     "setup_cmd": "./setup.sh",
     "hooks": {
         "guard": "velikodniy_cgt_tool_verif",
-        "enable": "RUSTFLAGS='--cfg velikodniy_cgt_tool_verif' (set by ./check and ./setup.sh when they build /repo's crates)",
+        "enable": "rustflags = [\"--cfg\", \"velikodniy_cgt_tool_verif\"] in /verif/harness/.cargo/config.toml: the harness compiles /repo's crates with the hook on (cgt_formatter_pdf::verif_text_runs, used by C17); the cgt-tool binary the checks run is built without it",
         "baseline_off_cmd": "cd /repo && cargo test --workspace --no-fail-fast --offline",
         "source_commits": claims.get("_hook_commits", []),
         "add_only": True,
